@@ -429,6 +429,9 @@ inductive Dest where
   | unsupported               -- unsigned kinds, bool, arrays, … : the default branch ends in errConversion
   deriving DecidableEq, Repr
 
+/-- the IEEE-754 double with these bits is +Inf or -Inf -/
+def isInfBits (b : UInt64) : Bool := b &&& 0x7fffffffffffffff == 0x7ff0000000000000
+
 /-- text of a list of one-character atoms (`charList.String()`) -/
 def charsOf : List Term → Option (List Char)
   | [] => some []
@@ -460,7 +463,10 @@ mutual
     | .int _, _ => .error ()
     | .float64, .flt b => .ok (.float b)
     | .float64, _ => .error ()
-    | .float32, .flt b => .ok (.float (round32 b))
+    | .float32, .flt b =>
+      -- D20 repair: a finite answer that overflows single precision is an error, not ±Inf
+      if fixed = true ∧ isInfBits (round32 b) = true ∧ isInfBits b = false then .error ()
+      else .ok (.float (round32 b))
     | .float32, _ => .error ()
     | .string, .atom a => .ok (.str a)
     | .string, .app f as =>
